@@ -62,6 +62,8 @@ PROPS = {
     "C04": planner_prop(["Props/C04.v"], ["C04"], diff_fields={1}),
     "C09": space_prop(["Props/C09.v"], ["C09"]),
     "C10": space_prop(["Props/C10.v"], ["C10"]),
+    "C11": space_prop(["Props/C11.v"], ["C11"]),
+    "C12": space_prop(["Props/C12.v"], ["C12"]),
     "C13": space_prop(["Props/C13.v"], ["C13"]),
     "C14": space_prop(["Props/C14.v"], ["C14", "C11"]),
     "C15": planner_prop(["Props/C15.v"], ["C15"]),
